@@ -207,6 +207,18 @@ void janetc_popscope_keepslot(JanetCompiler *c, JanetSlot retslot) {
     }
 }
 
+/* Run a fiber on behalf of the compiler (a macro or a missing symbol handler). The code it runs may
+ * start another compiler, which gets a recursion guard of its own: while it runs, charge the depth
+ * this compiler has used so far to the C stack guard of the VM, so that nested compilers share one
+ * stack budget instead of multiplying it. */
+static JanetSignal janetc_continue(JanetCompiler *c, JanetFiber *fiber, Janet *out) {
+    int32_t used = JANET_RECURSION_GUARD - c->recursion_guard;
+    janet_vm.stackn += used;
+    JanetSignal status = janet_continue(fiber, janet_wrap_nil(), out);
+    janet_vm.stackn -= used;
+    return status;
+}
+
 static int lookup_missing(
     JanetCompiler *c,
     const uint8_t *sym,
@@ -227,7 +239,7 @@ static int lookup_missing(
     fiberp->env = c->env;
     int lock = janet_gclock();
     Janet tempOut;
-    JanetSignal status = janet_continue(fiberp, janet_wrap_nil(), &tempOut);
+    JanetSignal status = janetc_continue(c, fiberp, &tempOut);
     janet_gcunlock(lock);
     if (status != JANET_SIGNAL_OK) {
         janetc_error(c, janet_formatc("(lookup) %V", tempOut));
@@ -759,7 +771,7 @@ static int macroexpand1(
         janet_table_put(c->env, ml_kw, janet_wrap_array(c->lints));
     }
     Janet tempOut;
-    JanetSignal status = janet_continue(fiberp, janet_wrap_nil(), &tempOut);
+    JanetSignal status = janetc_continue(c, fiberp, &tempOut);
     janet_table_put(c->env, mf_kw, janet_wrap_nil());
     janet_table_put(c->env, ml_kw, janet_wrap_nil());
     janet_gcunlock(lock);
